@@ -18,6 +18,7 @@ import (
 	"strings"
 	"sync"
 	"testing"
+	"time"
 
 	"github.com/DrmagicE/gmqtt"
 	"github.com/DrmagicE/gmqtt/config"
@@ -575,8 +576,13 @@ func (sc *c14Script) expectPublish(cl *fixture.Client, topic, payload string) *e
 // from the client table inside unregisterClient, which holds the server mutex from before
 // the will hooks until after OnSessionTerminated, and GetClient takes the same mutex.
 func (sc *c14Script) gone(id string) *ev.Violation {
-	if !waitClientGone(sc.b, id) {
-		return harnessErr("client %q still registered 5 s after its connection ended", id)
+	deadline := time.Now().Add(fixture.DefaultWait)
+	for sc.b.Srv.ClientService().GetClient(id) != nil {
+		if time.Now().After(deadline) {
+			sess, _ := sc.b.Srv.ClientService().GetSession(id)
+			return harnessErr("client %q still registered %v after its connection ended (session %+v)", id, fixture.DefaultWait, sess)
+		}
+		time.Sleep(time.Millisecond)
 	}
 	return nil
 }
